@@ -2385,8 +2385,19 @@ def check_kind_siblings(ck, rule, prog, file_rx=r".*", floor=0):
     """in a group of three (or more) functions that are the gene / OMIM / ORPHA variants of one operation, none may do something the
     others do not: an extra filtering / truncating adaptor, an extra error-swallowing or text-changing call, a call of a crate function
     that no sibling calls.  (What a variant LACKS is not judged: one sibling written as a loop, the others as a chain, is fine.)"""
-    from props.shared import STR_CHANGE
-    sus = (SOFT_FILTERS | ERR_SWALLOW | STR_CHANGE) - {"iter", "into_iter", "peekable"}
+    # steps that change WHICH elements / WHAT text / WHETHER an error is seen (collection housekeeping such as pop / extend / retain of a
+    # work list is not on the list: an iterative rewrite of one recursive sibling uses them)
+    sus = {"filter", "filter_map", "find", "find_map", "flat_map", "position", "skip_while", "take_while", "map_while", "skip", "take", "step_by", "nth",
+           "ok", "unwrap_or_default", "unwrap_or", "unwrap_or_else", "is_ok", "is_err", "map_or", "map_or_else", "err",
+           "trim", "trim_start", "trim_end", "trim_matches", "to_lowercase", "to_uppercase", "to_ascii_lowercase", "to_ascii_uppercase", "replace", "replacen", "strip_prefix", "strip_suffix",
+           "eq_ignore_ascii_case", "split_whitespace"}
+
+    def substantial(tg):
+        """a crate function that does work of its own (loops, calls further crate functions, or is not tiny): accessors and predicates
+        (`is_empty`, `parents`, `id`) are not what distinguishes one variant from another"""
+        if tg.natural_loops() or len(tg.reach) > 6:
+            return True
+        return any(t.callee.res in prog.bodies and prog.bodies[t.callee.res].kind != "Closure" for fb in prog.family(tg) for _, t in fb.calls())
 
     def feats(b):
         cc, st = set(), set()
@@ -2395,7 +2406,7 @@ def check_kind_siblings(ck, rule, prog, file_rx=r".*", floor=0):
                 r = t.callee.res
                 if r and r in prog.bodies and prog.bodies[r].kind != "Closure":
                     nm = _abs_kind(prog.bodies[r].name or "?")
-                    if nm not in ("new", "default", "from", "into", "clone", "try_new", "with_capacity", "as_u32", "id", "name"):  # value constructors / plain accessors
+                    if nm not in ("new", "default", "from", "into", "clone", "try_new", "with_capacity", "as_u32", "id", "name", "iter", "into_iter", "next") and substantial(prog.bodies[r]):
                         cc.add(nm)
                 elif t.callee.method in sus:
                     # selection by content is one class however it is spelled (filter / filter_map(.. then_some) / find ...)
